@@ -70,7 +70,7 @@ func c6Check(c *Ctx, lv map[string]int64) {
 	if !c.Anchor("R6.1", "zap.Logger.check", fn != nil) {
 		return
 	}
-	name := fn.String()
+	name := FStr(fn)
 	lvl := fn.Params[1]
 	var coreCheck *ssa.Call
 	for _, cl := range Calls(fn) {
@@ -292,7 +292,7 @@ func c6Check(c *Ctx, lv map[string]int64) {
 			cases = append(cases, ocase{k.Name(), func(st *ConcState) { st.SetDyn(ov, DynFact{Typ: cwa, K: kv, HasK: true}) }, want})
 		}
 		if len(cases) < 5 {
-			c.Bad("R6.1", th.String(), "cases", th.Pos(), "expected nil, another hook type and at least WriteThenNoop, WriteThenGoexit, WriteThenPanic, WriteThenFatal; have %d cases", len(cases))
+			c.Bad("R6.1", FStr(th), "cases", th.Pos(), "expected nil, another hook type and at least WriteThenNoop, WriteThenGoexit, WriteThenPanic, WriteThenFatal; have %d cases", len(cases))
 		}
 		for _, oc := range cases {
 			oc := oc
@@ -346,14 +346,14 @@ func c6Check(c *Ctx, lv map[string]int64) {
 					bad = append(bad, sq)
 				}
 			}
-			c.Check(!trunc && len(seqs) > 0 && len(bad) == 0, "R6.1", th.String(), "override/"+oc.name, th.Pos(), "with the configured hook fixed to %s every path returns the %s hook (the default exactly for nil or WriteThenNoop, the configured hook otherwise); offending: %v", oc.name, oc.want, bad)
+			c.Check(!trunc && len(seqs) > 0 && len(bad) == 0, "R6.1", FStr(th), "override/"+oc.name, th.Pos(), "with the configured hook fixed to %s every path returns the %s hook (the default exactly for nil or WriteThenNoop, the configured hook otherwise); offending: %v", oc.name, oc.want, bad)
 		}
 	}
 }
 
 // frontEndTable checks one method that must call helper(levelConst|levelParam, ...).
 func c6Route(c *Ctx, rule string, fn *ssa.Function, helperFull []string, wantLevel int64, levelIsParam bool, lvlArgIdx int) *ssa.Call {
-	name := fn.String()
+	name := FStr(fn)
 	var call *ssa.Call
 	n := 0
 	for _, cl := range Calls(fn) {
@@ -405,7 +405,7 @@ func c6FrontEnds(c *Ctx, lv map[string]int64) {
 			// or: written on every path whatever it is, Write itself returning at once on a nil receiver
 			ok = ok || (mustPass(fn, func(i ssa.Instruction) bool { return i == w }) && ceWriteNilSafe(c))
 		}
-		c.Check(ok, "R6.2", fn.String(), "writes-unless-nil", call.Pos(), "the checked entry is written on every path where it is non-nil")
+		c.Check(ok, "R6.2", FStr(fn), "writes-unless-nil", call.Pos(), "the checked entry is written on every path where it is non-nil")
 	}
 	lc := c.Method(zp, "Logger", "Check")
 	if c.Anchor("R6.2", "zap.Logger.Check", lc != nil) {
@@ -431,7 +431,7 @@ func c6FrontEnds(c *Ctx, lv map[string]int64) {
 		if !c.Anchor("R6.2", "zap.SugaredLogger."+h, fn != nil) {
 			continue
 		}
-		name := fn.String()
+		name := FStr(fn)
 		var chk *ssa.Call
 		for _, cl := range Calls(fn) {
 			if IsCallTo(cl, "(*go.uber.org/zap.Logger).Check") {
@@ -520,10 +520,10 @@ func c6FrontEnds(c *Ctx, lv map[string]int64) {
 				}
 			}
 			if viaLog != nil {
-				c.Check(mustPass(fn, func(i ssa.Instruction) bool { return i == viaLog }), "R6.2", fn.String(), "routes", viaLog.Pos(), "always forwards to SugaredLogger.%s at the printer's own level", want)
+				c.Check(mustPass(fn, func(i ssa.Instruction) bool { return i == viaLog }), "R6.2", FStr(fn), "routes", viaLog.Pos(), "always forwards to SugaredLogger.%s at the printer's own level", want)
 				continue
 			}
-			c.Bad("R6.2", fn.String(), "routes", fn.Pos(), "does not call v.%s", fld)
+			c.Bad("R6.2", FStr(fn), "routes", fn.Pos(), "does not call v.%s", fld)
 			continue
 		}
 		if m == "Println" {
@@ -557,9 +557,9 @@ func c6FrontEnds(c *Ctx, lv map[string]int64) {
 					okAll = false
 				}
 			}
-			c.Check(okAll, "R6.2", fn.String(), "routes", hit.Pos(), "v.print may be skipped only for levels below DPanic (counter-example %v)", cex)
+			c.Check(okAll, "R6.2", FStr(fn), "routes", hit.Pos(), "v.print may be skipped only for levels below DPanic (counter-example %v)", cex)
 		} else {
-			c.Check(mustPass(fn, func(i ssa.Instruction) bool { return i == hit }), "R6.2", fn.String(), "routes", hit.Pos(), "always forwards to v.%s", fld)
+			c.Check(mustPass(fn, func(i ssa.Instruction) bool { return i == hit }), "R6.2", FStr(fn), "routes", hit.Pos(), "always forwards to v.%s", fld)
 		}
 	}
 	// NewLogger: the fatal printer is wired to FatalLevel / Fatal / Fatalf
@@ -644,10 +644,10 @@ func c6FrontEnds(c *Ctx, lv map[string]int64) {
 					}
 				}
 			}
-			c.Check(ok, "R6.2", nl.String(), "printer/"+which, nl.Pos(), "the %s printer is {level:%d, print:delegate.%s, printf:delegate.%s, enab: the live enabler} (got %v)", which, lvl, pm, pfm, got)
+			c.Check(ok, "R6.2", FStr(nl), "printer/"+which, nl.Pos(), "the %s printer is {level:%d, print:delegate.%s, printf:delegate.%s, enab: the live enabler} (got %v)", which, lvl, pm, pfm, got)
 		}
 		if trunc || len(seqs) == 0 || seen["fatal"] == nil || seen["print"] == nil {
-			c.Bad("R6.2", nl.String(), "printers", nl.Pos(), "cannot find the printers stored into logger.fatal / logger.print")
+			c.Bad("R6.2", FStr(nl), "printers", nl.Pos(), "cannot find the printers stored into logger.fatal / logger.print")
 		} else {
 			chk("fatal", lv["Fatal"], "Fatal", "Fatalf")
 			chk("print", lv["Info"], "Info", "Infof")
@@ -679,7 +679,7 @@ func c6Write(c *Ctx) {
 	if !c.Anchor("R6.3", "zapcore.CheckedEntry.Write", fn != nil) {
 		return
 	}
-	name := fn.String()
+	name := FStr(fn)
 	var coreWrite, hook, put *ssa.Call
 	for _, cl := range CallsDeep(fn) {
 		call, _ := cl.(*ssa.Call)
@@ -714,7 +714,7 @@ func c6Write(c *Ctx) {
 		if in2 != nil {
 			pos = in2.Pos()
 		}
-		c.Check(okT, "R6.3", mw.String(), "all-branches", pos, "a tee writes the entry to every branch whatever the earlier branches returned, so a terminal entry reaches every core before control is lost %s", whyT)
+		c.Check(okT, "R6.3", FStr(mw), "all-branches", pos, "a tee writes the entry to every branch whatever the earlier branches returned, so a terminal entry reaches every core before control is lost %s", whyT)
 	}
 	c.Check(d1 == rc+".Entry" && d2 == PN(fn.Params[1]), "R6.3", name, "same-entry-and-fields", coreWrite.Pos(), "each core receives ce.Entry and the caller's fields (%s, %s)", d1, d2)
 	isAny := func(x ...*ssa.Call) func(ssa.Instruction) bool {
@@ -746,7 +746,7 @@ func c6Write(c *Ctx) {
 func c6Sync(c *Ctx, lv map[string]int64) {
 	fn := c.Method(CorePath, "ioCore", "Write")
 	if c.Anchor("R6.4", "zapcore.ioCore.Write", fn != nil) {
-		name := fn.String()
+		name := FStr(fn)
 		var outWrite, sync *ssa.Call
 		for _, cl := range CallsDeep(fn) {
 			call, _ := cl.(*ssa.Call)
@@ -794,7 +794,7 @@ func c6Sync(c *Ctx, lv map[string]int64) {
 		is := c.Method(CorePath, "ioCore", "Sync")
 		if c.Anchor("R6.4", "zapcore.ioCore.Sync", is != nil) {
 			for k, r := range Returns(is) {
-				c.Check(Desc(RetVals(r)[0]) == "Sync(c.out)", "R6.4", is.String(), "return#"+itoa(k+1), r.Pos(), "ioCore.Sync syncs its sink (%s)", Desc(RetVals(r)[0]))
+				c.Check(Desc(RetVals(r)[0]) == "Sync(c.out)", "R6.4", FStr(is), "return#"+itoa(k+1), r.Pos(), "ioCore.Sync syncs its sink (%s)", Desc(RetVals(r)[0]))
 			}
 		}
 	}
@@ -808,7 +808,7 @@ func c6Actions(c *Ctx) {
 		vals[n], _ = c.ConstVal(CorePath, n)
 	}
 	if c.Anchor("R6.5", "zapcore.CheckWriteAction.OnWrite", fn != nil) {
-		name := fn.String()
+		name := FStr(fn)
 		armOf := func(i ssa.Instruction) int64 {
 			for _, a := range AtomStrings(Guards(i)) {
 				if strings.HasPrefix(a, "a == ") {
@@ -847,11 +847,11 @@ func c6Actions(c *Ctx) {
 		for _, cl := range Calls(with) {
 			if Desc(cl.Common().Value) == "_exit" && len(cl.Common().Args) == 1 && cl.Common().Args[0] == ssa.Value(with.Params[0]) {
 				n++
-				c.Check(mustPass(with, func(i ssa.Instruction) bool { return i == ssa.Instruction(cl) }), "R6.5", with.String(), "calls-exit", cl.Pos(), "With(code) calls the exit function with the same code on every path")
+				c.Check(mustPass(with, func(i ssa.Instruction) bool { return i == ssa.Instruction(cl) }), "R6.5", FStr(with), "calls-exit", cl.Pos(), "With(code) calls the exit function with the same code on every path")
 			}
 		}
 		if n != 1 {
-			c.Bad("R6.5", with.String(), "calls-exit", with.Pos(), "expected one call of _exit(code), found %d", n)
+			c.Bad("R6.5", FStr(with), "calls-exit", with.Pos(), "expected one call of _exit(code), found %d", n)
 		}
 	}
 	// writers of _exit
@@ -871,11 +871,11 @@ func c6Actions(c *Ctx) {
 				AllInstrs(g, func(i ssa.Instruction) {
 					if st, ok := i.(*ssa.Store); ok {
 						if gl, ok := st.Addr.(*ssa.Global); ok && gl.Name() == "_exit" && gl.Pkg.Pkg.Path() == ep {
-							if g.String() == ep+".init" {
+							if FStr(g) == ep+".init" {
 								initOK = Desc(st.Val) == "func os.Exit"
 							}
-							if !allowed[g.String()] {
-								badWriters = append(badWriters, g.String())
+							if !allowed[FStr(g)] {
+								badWriters = append(badWriters, FStr(g))
 							}
 						}
 					}
@@ -886,8 +886,8 @@ func c6Actions(c *Ctx) {
 	c.EachRootFunc(func(g *ssa.Function) {
 		AllInstrs(g, func(i ssa.Instruction) {
 			if st, ok := i.(*ssa.Store); ok {
-				if gl, ok := st.Addr.(*ssa.Global); ok && gl.Name() == "_exit" && !allowed[g.String()] {
-					badWriters = append(badWriters, g.String())
+				if gl, ok := st.Addr.(*ssa.Global); ok && gl.Name() == "_exit" && !allowed[FStr(g)] {
+					badWriters = append(badWriters, FStr(g))
 				}
 			}
 		})
@@ -901,8 +901,8 @@ func c6Actions(c *Ctx) {
 			return
 		}
 		for _, cl := range Calls(g) {
-			if f := CalleeFunc(cl); f != nil && f.Pkg() != nil && f.Pkg().Path() == ep && f.Name() != "With" {
-				callers = append(callers, g.String()+"→"+f.Name())
+			if f := CalleeFunc(cl); f != nil && f.Pkg() != nil && f.Pkg().Path() == ep && FNm(f) != "With" {
+				callers = append(callers, FStr(g)+"→"+FNm(f))
 			}
 		}
 	})
@@ -998,7 +998,7 @@ func c6CrashSync(c *Ctx, rule string) {
 				if !ok || !cl.Call.IsInvoke() {
 					return nil
 				}
-				switch cl.Call.Method.Name() {
+				switch FNm(cl.Call.Method) {
 				case "EncodeEntry":
 					return []ConcAlt{{Ev: "encode-ok", Nils: map[ssa.Value]bool{ex: true}}, {Ev: "encode-failed", Nils: map[ssa.Value]bool{ex: false}}}
 				case "Write":
@@ -1009,7 +1009,7 @@ func c6CrashSync(c *Ctx, rule string) {
 			Event: func(in ssa.Instruction, st *ConcState) string {
 				switch x := in.(type) {
 				case *ssa.Call:
-					if x.Call.IsInvoke() && x.Call.Method.Name() == "Sync" || IsCallTo(x, "(*go.uber.org/zap/zapcore.ioCore).Sync") {
+					if x.Call.IsInvoke() && FNm(x.Call.Method) == "Sync" || IsCallTo(x, "(*go.uber.org/zap/zapcore.ioCore).Sync") {
 						return "sync"
 					}
 				case *ssa.Return:
@@ -1020,10 +1020,10 @@ func c6CrashSync(c *Ctx, rule string) {
 				}
 				return ""
 			},
-			Inline: func(h *ssa.Function) bool { return h.Name() != "Sync" },
+			Inline: func(h *ssa.Function) bool { return FNm(h) != "Sync" },
 		})
 		if trunc || len(seqs) == 0 {
-			c.Und(rule, fn.String(), "crash-sync", fn.Pos(), "path exploration incomplete")
+			c.Und(rule, FStr(fn), "crash-sync", fn.Pos(), "path exploration incomplete")
 			return
 		}
 		for _, sq := range seqs {
@@ -1055,7 +1055,7 @@ func c6CrashSync(c *Ctx, rule string) {
 	if len(bad) > 3 {
 		bad = append(bad[:3:3], "… "+itoa(len(bad)-3)+" more")
 	}
-	c.Check(len(bad) == 0 && n >= 14, rule, fn.String(), "crash-sync", fn.Pos(), "over %d paths (levels -1..5, encoder and sink outcomes forked): nil is returned exactly when neither reported an error, and an accepted entry above ErrorLevel is synced before Write returns: %v", n, bad)
+	c.Check(len(bad) == 0 && n >= 14, rule, FStr(fn), "crash-sync", fn.Pos(), "over %d paths (levels -1..5, encoder and sink outcomes forked): nil is returned exactly when neither reported an error, and an accepted entry above ErrorLevel is synced before Write returns: %v", n, bad)
 }
 
 // entryAtCoreCheck: what the fields of the entry that Logger.check hands to Core.Check hold, by path exploration
@@ -1125,7 +1125,7 @@ func c6StdBridge(c *Ctx, rule string, lv map[string]int64) {
 			r = r.Parent()
 		}
 		rn := RecvNamed(r)
-		return h != check && rn != nil && rn.Obj() == lg.Obj() && r.Name() != "WithOptions"
+		return h != check && rn != nil && rn.Obj() == lg.Obj() && FNm(r) != "WithOptions"
 	}
 	// stage 2
 	writeAt := func(sn snap) (levels []string, bad []string) {
@@ -1214,7 +1214,7 @@ func c6StdBridge(c *Ctx, rule string, lv map[string]int64) {
 				MaxDepth: 6,
 				// one bridge built on another (NewStdLog as NewStdLogAt at InfoLevel)
 				InlineAny: func(h *ssa.Function) bool {
-					return h.Pkg != nil && h.Pkg.Pkg.Path() == zp && h.Signature.Recv() == nil && (h.Name() == "NewStdLog" || h.Name() == "NewStdLogAt" || h.Name() == "RedirectStdLog" || h.Name() == "RedirectStdLogAt")
+					return h.Pkg != nil && h.Pkg.Pkg.Path() == zp && h.Signature.Recv() == nil && (FNm(h) == "NewStdLog" || FNm(h) == "NewStdLogAt" || FNm(h) == "RedirectStdLog" || FNm(h) == "RedirectStdLogAt")
 				},
 				Init: func(st *ConcState) {
 					if ct.levelIdx >= 0 {
@@ -1278,7 +1278,7 @@ func c6StdBridge(c *Ctx, rule string, lv map[string]int64) {
 							}
 							snaps = append(snaps, sn)
 							installed++
-							return "install:" + sc.Name()
+							return "install:" + FNm(sc)
 						}
 					case *ssa.Return:
 						if len(st.cfg.stackDepth()) != 0 {
@@ -1400,7 +1400,7 @@ func c6FreshEntryCarriesEntry(c *Ctx, rule string) {
 			if !nilRecv {
 				slot = "existing-entry-kept"
 			}
-			c.Check(!trunc && len(seqs) > 0 && len(bad) == 0, rule, fn.String(), slot, fn.Pos(), "%s explored with a %s receiver: %s (offending: %v)", m, map[bool]string{true: "nil", false: "non-nil"}[nilRecv], map[bool]string{true: "the checked entry handed back has Entry = the entry passed in on every path", false: "the Entry already recorded is not overwritten"}[nilRecv], bad)
+			c.Check(!trunc && len(seqs) > 0 && len(bad) == 0, rule, FStr(fn), slot, fn.Pos(), "%s explored with a %s receiver: %s (offending: %v)", m, map[bool]string{true: "nil", false: "non-nil"}[nilRecv], map[bool]string{true: "the checked entry handed back has Entry = the entry passed in on every path", false: "the Entry already recorded is not overwritten"}[nilRecv], bad)
 		}
 	}
 }
@@ -1425,7 +1425,7 @@ func c6GrpcRoutes(c *Ctx, rule string) {
 		var hit ssa.CallInstruction
 		for _, cl := range Calls(fn) {
 			f := CalleeFunc(cl)
-			if f == nil || f.Name() != parts[1] {
+			if f == nil || FNm(f) != parts[1] {
 				continue
 			}
 			if Desc(Args(cl)[0]) == "l."+parts[0] {
@@ -1438,6 +1438,6 @@ func c6GrpcRoutes(c *Ctx, rule string) {
 			// fatal entries must be forwarded on every path
 			ok = mustPass(fn, func(i ssa.Instruction) bool { return i == ssa.Instruction(hit) })
 		}
-		c.Check(ok, rule, fn.String(), "routes", fn.Pos(), "forwards to l.%s (found %d%s)", target, n, map[bool]string{true: "", false: "; not on every path"}[ok || n != 1])
+		c.Check(ok, rule, FStr(fn), "routes", fn.Pos(), "forwards to l.%s (found %d%s)", target, n, map[bool]string{true: "", false: "; not on every path"}[ok || n != 1])
 	}
 }
